@@ -24,6 +24,9 @@ type Params struct {
 	// (the other sign), y+1, y-1, swap, identity (0,1), order2 (0,-1)
 	KeyPerturb string
 	RootPos    string // merklized root position of the credential's claim
+	// SubjectPos: where the claim carries the subject id: "index" (also for ""), "value", or
+	// "none" = the credential has no credentialSubject.id
+	SubjectPos string
 	Updatable  bool
 }
 
@@ -32,8 +35,8 @@ func (p Params) String() string {
 	if p.Published != nil {
 		pub = fmt.Sprint(*p.Published)
 	}
-	return fmt.Sprintf("claims=%d deep=%v revoked=%d revdeep=%v genesis=%v published=%s omitzero=%v authnonce=%d rootpos=%s upd=%v",
-		p.NClaims, p.Deep, p.NRevoked, p.RevDeep, p.Genesis, pub, p.OmitZero, p.AuthNonce, p.RootPos, p.Updatable)
+	return fmt.Sprintf("claims=%d deep=%v revoked=%d revdeep=%v genesis=%v published=%s omitzero=%v authnonce=%d rootpos=%s subjectpos=%s upd=%v",
+		p.NClaims, p.Deep, p.NRevoked, p.RevDeep, p.Genesis, pub, p.OmitZero, p.AuthNonce, p.RootPos, p.SubjectPos, p.Updatable)
 }
 
 // Scenario is an honest issuance plus the material faults are made of.
@@ -142,8 +145,15 @@ func Build(rng *rand.Rand, p Params) (*Scenario, error) {
 		issuerField = is.DID.String()
 	}
 	credNonce := uint64(rng.Int63())
-	sc.Cred = NewCredential(rng, issuerField, subject.DID.String(), credNonce)
-	opts := verifiable.CoreClaimOptions{RevNonce: credNonce, Version: 0, SubjectPosition: "index",
+	subjectID, subjectPos := subject.DID.String(), "index"
+	switch p.SubjectPos {
+	case "value":
+		subjectPos = "value"
+	case "none":
+		subjectID = ""
+	}
+	sc.Cred = NewCredential(rng, issuerField, subjectID, credNonce)
+	opts := verifiable.CoreClaimOptions{RevNonce: credNonce, Version: 0, SubjectPosition: subjectPos,
 		MerklizedRootPosition: p.RootPos, Updatable: p.Updatable}
 	if sc.Claim, err = CoreClaimOf(sc.Cred, opts); err != nil {
 		return nil, err
@@ -162,6 +172,7 @@ func Build(rng *rand.Rand, p Params) (*Scenario, error) {
 	other := NewCredential(rng, issuerField, subject2.DID.String(), credNonce+1) // another subject: another index
 	opts.Version = 0
 	opts.RevNonce = credNonce + 1
+	opts.SubjectPosition = "index" // the other credential always has its own subject in the index
 	if sc.Unrelated, err = CoreClaimOf(other, opts); err != nil {
 		return nil, err
 	}
